@@ -202,6 +202,10 @@ class C19(Check):
         self._pristine = [(self.D, self._snap(vars(self.D))), (st, self._snap(vars(st)))]
         snd = getattr(self.D, "_sender", None)
         if snd is not None: self._pristine.append((snd, self._snap(vars(snd))))
+        import pox.lib.packet.lldp as lldpmod
+        for mod in (disc, st, lldpmod):                                     # class-level dicts / lists shared by instances
+            for cls in [c for c in vars(mod).values() if isinstance(c, type) and getattr(c, "__module__", None) == mod.__name__]:
+                self._pristine.append((cls, self._snap(dict(vars(cls)))))
         self._events = []
         self._orders = []
         def rec(e):
